@@ -3692,3 +3692,33 @@ def tab11(ctx):
     if n < 2:
         raise AnchorMissing("TAB-11: %d [-place] arms found (expected 2: Segment::apply_seg_mods, Word::alias_apply_mods)" % n)
     return r
+
+
+# ---------------------------------------------------------------- ENV-9: every member of an environment set is tried
+
+def env9(ctx):
+    """`/ :{ _, a_ }:` -- a rule fires where ANY member of its environment set holds, and is blocked where any member of
+    its exception set holds. SubRule::get_contexts / get_exceptions hand every member of the parsed set to the matcher,
+    in order: their iterator chains only map (no filter / skip / take / dedup / rev), and the two are the same code."""
+    from engine_pur import ORDER_BREAKING
+    r = RuleResult("ENV-9", "SubRule::get_contexts / get_exceptions return every member of the environment set, in order (count- and order-preserving adaptors only; the two siblings use the same chain)", floor=2)
+    lib = ctx.lib
+    chains = {}
+    for nm in ("get_contexts", "get_exceptions"):
+        b = ctx.fn(lib, "asca::subrule::SubRule::" + nm)
+        names = [x["name"] for x in hirq.walk(b.hir["body"]) if x["e"] == "mcall"]
+        chains[nm] = names
+        bad = sorted(set(n for n in names if n in ORDER_BREAKING or n in ("retain", "truncate", "pop", "remove", "drain", "find", "position", "nth", "last", "first", "next")))
+        loops = [x for x in hirq.walk(b.hir["body"]) if x["e"] == "loop"]
+        exits = [x for x in hirq.walk(b.hir["body"]) if x["e"] in ("continue", "break")] if loops else []
+        ok = not bad and not exits
+        r.inst("%s: every member is returned (%s)" % (nm, "/".join(names) or "no adaptor"), fn_loc(b), "ok" if ok else "report")
+        if not ok:
+            r.report("ENV-9|%s" % nm, fn_loc(b), b.path,
+                     "%s does not hand every member of the environment set to the matcher (%s): a member that is dropped -- e.g. the bare `_` of `:{ _, a_ }:`, the always-true alternative -- silently narrows where the rule applies" % (nm, ", ".join(bad) or "a loop with continue/break"))
+    same = chains["get_contexts"] == chains["get_exceptions"]
+    r.inst("get_contexts and get_exceptions build their lists the same way", fn_loc(ctx.fn(lib, "asca::subrule::SubRule::get_contexts")), "ok" if same else "report")
+    if not same:
+        r.report("ENV-9|siblings", fn_loc(ctx.fn(lib, "asca::subrule::SubRule::get_contexts")), "asca::subrule::SubRule::get_contexts",
+                 "get_contexts builds its list with %s, get_exceptions with %s: a context set and an exception set written the same way are read differently" % ("/".join(chains["get_contexts"]), "/".join(chains["get_exceptions"])))
+    return r
